@@ -211,44 +211,65 @@ func ruleC17PreferredFirst(c *Ctx) {
 		return
 	}
 	c.FuncsAnalysed[shortName(build)] = true
-	isPrefTest := func(v ssa.Value) bool {
-		b, ok := v.(*ssa.BinOp)
-		if !ok || b.Op != token.EQL {
-			return false
+	// prefKnown: at instruction i the region is known equal (want=true) / known different (want=false) to preferredRegion
+	prefKnown := func(i ssa.Instruction, want bool) bool {
+		for _, fct := range factsAt(i.Block()) {
+			b, ok := fct.V.(*ssa.BinOp)
+			if !ok || (b.Op != token.EQL && b.Op != token.NEQ) {
+				continue
+			}
+			if !strings.HasSuffix(accessPath(b.X), ".preferredRegion") && !strings.HasSuffix(accessPath(b.Y), ".preferredRegion") {
+				continue
+			}
+			equal := (b.Op == token.EQL) == fct.True
+			if equal == want {
+				return true
+			}
 		}
-		return strings.HasSuffix(accessPath(b.X), ".preferredRegion") || strings.HasSuffix(accessPath(b.Y), ".preferredRegion")
+		return false
 	}
 	n := 0
-	allInstrs(build, func(i ssa.Instruction) {
-		cv, ok := i.(*ssa.Call)
-		if !ok {
-			return
-		}
-		bi, isB := cv.Call.Value.(*ssa.Builtin)
-		if !isB || bi.Name() != "append" || !strings.HasSuffix(cv.Type().String(), "regionalClient") {
-			return
-		}
-		n++
-		fresh := func(v ssa.Value) bool {
-			sl, ok := v.(*ssa.Slice)
-			if !ok {
-				return false
+	var builderFuncs []*ssa.Function
+	for _, g := range u.RepoFuncs {
+		if g.Pkg != nil && g.Pkg.Pkg.Path() == pkgKmsV2 && g.Blocks != nil {
+			if r := rootFunc(g); r.Signature.Recv() != nil && typeIsNamed(r.Signature.Recv().Type(), pkgKmsV2, "Builder") {
+				builderFuncs = append(builderFuncs, g)
 			}
-			a, ok := sl.X.(*ssa.Alloc)
-			return ok && (a.Comment == "slicelit" || a.Comment == "varargs")
 		}
-		first, second := cv.Call.Args[0], cv.Call.Args[1]
-		switch {
-		case fresh(first) && !fresh(second): // prepend
-			ok := guardedBy(i, true, isPrefTest)
-			c.check(ok, "kms-v2.Builder.Build/prepend", u.ipos(i), "prepended only on the region == preferredRegion edge", "a client is placed at the front of the client list on a path where it is not known to be the preferred region")
-		case fresh(second) && !fresh(first): // append
-			ok := guardedBy(i, false, isPrefTest)
-			c.check(ok, "kms-v2.Builder.Build/append", u.ipos(i), "appended only on the region != preferredRegion edge", "a client is appended to the END of the client list on a path where it may be the preferred region: another region is then tried first")
-		default:
-			c.undecided("kms-v2.Builder.Build/append", u.ipos(i), "append shape not recognised")
-		}
-	})
+	}
+	sortFuncs(builderFuncs)
+	for _, bf := range builderFuncs {
+		allInstrs(bf, func(i ssa.Instruction) {
+			cv, ok := i.(*ssa.Call)
+			if !ok {
+				return
+			}
+			bi, isB := cv.Call.Value.(*ssa.Builtin)
+			if !isB || bi.Name() != "append" || !strings.HasSuffix(cv.Type().String(), "regionalClient") {
+				return
+			}
+			n++
+			fresh := func(v ssa.Value) bool {
+				sl, ok := v.(*ssa.Slice)
+				if !ok {
+					return false
+				}
+				a, ok := sl.X.(*ssa.Alloc)
+				return ok && (a.Comment == "slicelit" || a.Comment == "varargs")
+			}
+			first, second := cv.Call.Args[0], cv.Call.Args[1]
+			switch {
+			case fresh(first) && !fresh(second): // prepend
+				ok := prefKnown(i, true)
+				c.check(ok, "kms-v2.Builder.Build/prepend", u.ipos(i), "prepended only on the region == preferredRegion edge", "a client is placed at the front of the client list on a path where it is not known to be the preferred region")
+			case fresh(second) && !fresh(first): // append
+				ok := prefKnown(i, false)
+				c.check(ok, "kms-v2.Builder.Build/append", u.ipos(i), "appended only on the region != preferredRegion edge", "a client is appended to the END of the client list on a path where it may be the preferred region: another region is then tried first")
+			default:
+				c.undecided("kms-v2.Builder.Build/append", u.ipos(i), "append shape not recognised")
+			}
+		})
+	}
 	if n < 2 {
 		c.bad("kms-v2.Builder.Build/order", u.pos(build.Pos()), fmt.Sprintf("expected the prepend/append pair that orders the clients, found %d append calls", n))
 	}
